@@ -75,6 +75,15 @@ func (vc *VC) assumeRefFacts(st *State, v Val) {
 	}
 	switch u := v.Ty.Underlying().(type) {
 	case *types.Slice:
+		// the backing store of an existing slice was made earlier (or the slice is nil)
+		if isAtom(v.S) || strings.HasPrefix(v.S, "(select ") {
+			f := fmt.Sprintf("(or (<= (org_%s %s) 0) (select %s (org_%s %s)))", v.Sort, v.S, st.alloc, v.Sort, v.S)
+			key := "og|" + f
+			if !vc.rangeAsserted[key] {
+				vc.rangeAsserted[key] = true
+				vc.assume(st, f)
+			}
+		}
 		// every reference stored in a slice of pointers / interfaces is nil, boxed, or an allocated object
 		switch u.Elem().Underlying().(type) {
 		case *types.Pointer, *types.Interface:
@@ -1301,6 +1310,7 @@ func (vc *VC) evalCompositeLit(st *State, x *ast.CompositeLit) Val {
 		}
 		org := vc.fresh("org", "Int")
 		vc.assume(st, fmt.Sprintf("(> %s 0)", org))
+		vc.noteFreshOrigin(st, org)
 		return Val{S: fmt.Sprintf("(mk_%s %s %d %s)", ss, arr, n, org), Ty: t, Sort: ss}
 	case *types.Array:
 		if isByteArraySmall(u) && len(x.Elts) == 0 {
